@@ -1694,13 +1694,15 @@ Proof.
   destruct (N.eqb (sc_fk sc) 1 && N.eqb (sc_fa sc) (n_eq s)); cbn [fst]; [left | right]; reflexivity.
 Qed.
 
+Lemma uf_cls_truth sc a b : sc_adv sc = false -> cls_truth sc a b = N.eqb a b.
+Proof. intros Ha. unfold cls_truth, asym. rewrite Ha. reflexivity. Qed.
 Lemma uf_env_map_truthful sc : sc_adv sc = false -> uf_Truthful (env_map sc) kcls qcls.
 Proof.
-  intros Ha. constructor; intros; cbn [env_map eqK eqKQ]; apply uf_eq_answer; exact Ha.
+  intros Ha. constructor; intros; cbn [env_map eqK eqKQ]; rewrite (uf_cls_truth sc _ _ Ha); apply uf_eq_answer; exact Ha.
 Qed.
 Lemma uf_env_set_truthful sc : sc_adv sc = false -> uf_Truthful (env_set sc) kcls qcls.
 Proof.
-  intros Ha. constructor; intros; cbn [env_set eqK eqKQ]; apply uf_eq_answer; exact Ha.
+  intros Ha. constructor; intros; cbn [env_set eqK eqKQ]; rewrite (uf_cls_truth sc _ _ Ha); apply uf_eq_answer; exact Ha.
 Qed.
 
 (* every lawful environment is truthful *)
